@@ -528,13 +528,15 @@ class BPWorld(World):
             "order_seed": r.choice([None, r.randrange(2**31)]),
             "contract_every": r.choice([None, None, 1, 3]),
             "normalize": r.choice([None, None, "L1", "L2", "Linf"]),
-            "distance": r.choice([None, None, "L1", "L2", "Linf"]),
+            "distance": r.choice([None, None, "L1", "L2", "Linf", "L2phased", "cosine"]),
             "smudge": r.choice([0.0, 1e-13]),
             "pool": r.choice([0, 2, 3, 5]) if fl == "HV1BP" else 0,
         }
         if self.knobs["data_kind"] == "complex":
             o["normalize"] = None if fl != "HV1BP" else "L2"
-            o["distance"] = None if fl != "HV1BP" else "L2"
+            # (the plain norms do not converge for messages whose phase is
+            # free; the phase-invariant measures do)
+            o["distance"] = (o["distance"] if o["distance"] in ("L2phased", "cosine") else None) if fl != "HV1BP" else "L2"
         if self.knobs["data_kind"] != "pos":
             # damping mixes an old and a new message; with signs / phases the
             # two can cancel to a zero message, which no flavour claims to
@@ -564,7 +566,11 @@ class BPWorld(World):
         raise Skip()
 
     # .. configuration A ......................................................
-    def _tols(self, damping):
+    def _tols(self, damping, cosine=False):
+        if cosine:
+            # sqrt(2 - 2 cos) cannot resolve message changes below ~3e-8, so
+            # the run is stopped at 1e-6 and judged accordingly
+            return 1e-3 if damping else 1e-4
         return 1e-5 if damping else 1e-8
 
     def _apply_lib(self, op):
@@ -574,11 +580,12 @@ class BPWorld(World):
         o = op["opts"]
         fl = self.fl
         damping = o["damping"]
-        tol_run = 1e-12
+        cosine = o.get("distance") == "cosine" and fl != "HV1BP"
+        tol_run = 1e-6 if cosine else 1e-12
         maxit = 400 if not damping else 4000
         self.seam.sched.begin_call(op["plan"])
         try:
-            if op["entry"] == "func" and o.get("init_seed") is None and not o.get("pool"):
+            if op["entry"] == "func" and o.get("init_seed") is None and not o.get("pool") and not cosine:
                 val, ad = self._lib_func(o, op["strip"], tol_run, maxit)
             else:
                 ad = Adapter(self.net, fl, o, self.seam)
@@ -602,7 +609,9 @@ class BPWorld(World):
         self.stats.probe("lib_runs")
         self.stats.probe("messages", len(ad.mk_list) if ad is not None else 3)
         self.quanta += 1
-        tol = self._tols(damping)
+        tol = self._tols(damping, cosine)
+        if cosine:
+            self.stats.probe("lib_runs_cosine_distance")
         z = self.exact_value()
         if not abs(complex(val) - z) <= tol * abs(z):
             raise Violation(
